@@ -11,8 +11,9 @@ def signalMethods : List String := ["send_signal", "suspend", "resume", "termina
 def cfg : Cfg :=
   { clk := Gen.C02.clockTicks
     goneRaises := Gen.C02.goneRaises
-    bootWriteOnce := Gen.C02.bootWriteOnce
-    createUsesCache := Gen.C02.createUsesCache
+    bootWriteOnce := Gen.C02.bootWriteOnce && Gen.C02.bootStoresElsewhere.isEmpty
+    createUsesCache := Gen.C02.createBoot == "or" || Gen.C02.createBoot == "isNotNone"
+    createNoneTest := Gen.C02.createBoot == "isNotNone"
     guardSignal := signalMethods.all Gen.C02.guardedMethods.contains
     guardNice := Gen.C02.guardedMethods.contains "nice"
     guardIonice := Gen.C02.guardedMethods.contains "ionice"
